@@ -14,6 +14,7 @@ import MVoro.Gen.Grid
 import MVoro.Gen.Face
 import MVoro.Drv.Parse
 import MVoro.Drv.Geom
+import MVoro.Drv.Clip
 
 open MVoro MVoro.Drv
 
@@ -167,6 +168,8 @@ def handle (line : String) : String :=
       | "routes" => opRoutes args
       | "iloc" => opIloc args
       | "geom" => opGeom args
+      | "clipperm" => opClipperm args
+      | "cycle" => opCycle args
       | "addfar" => "-"
       | "partial" => "-"
       | _ => "unknown-op"
